@@ -71,8 +71,8 @@ pub open spec fn bytes_lt(a: Seq<u8>, b: Seq<u8>) -> bool
     else if a[0] != b[0] { a[0] < b[0] } else { bytes_lt(a.subrange(1, a.len() as int), b.subrange(1, b.len() as int)) }
 }
 pub open spec fn bytes_le(a: Seq<u8>, b: Seq<u8>) -> bool { a == b || bytes_lt(a, b) }
-pub struct RoRange<'a> { pub items: Ghost<Seq<(Seq<u8>, u64)>>, pub pos: Ghost<int>, pub _p: PhantomData<&'a ()> }
-pub type RoIter<'a> = RoRange<'a>;
+pub struct RoRange<'a, KC, DC> { pub items: Ghost<Seq<(Seq<u8>, u64)>>, pub pos: Ghost<int>, pub _p: PhantomData<&'a (KC, DC)> }
+pub type RoIter<'a, KC, DC> = RoRange<'a, KC, DC>;
 pub open spec fn range_items_ok(items: Seq<(Seq<u8>, u64)>, tab: Table, lo: Seq<u8>, hi: Seq<u8>, hi_incl: bool) -> bool {
     // exactly the entries in range, each once, ascending
     &&& forall|i: int| 0 <= i < items.len() ==> #[trigger] tab.contains_key(items[i].0) && tab[items[i].0] == items[i].1
@@ -81,7 +81,7 @@ pub open spec fn range_items_ok(items: Seq<(Seq<u8>, u64)>, tab: Table, lo: Seq<
     &&& forall|k: Seq<u8>| #[trigger] tab.contains_key(k) && bytes_le(lo, k) && (if hi_incl { bytes_le(k, hi) } else { bytes_lt(k, hi) })
             ==> exists|i: int| 0 <= i < items.len() && #[trigger] items[i].0 == k
 }
-impl<'a> RoRange<'a> {
+impl<'a> RoRange<'a, Bytes, U64<NativeEndian>> {
     #[verifier::external_body]
     pub fn next(&mut self) -> (r: Option<Result<(&'a [u8], u64), HeedError>>)
         ensures
@@ -130,5 +130,27 @@ impl Database<Bytes, Unit> {
     pub fn get(&self, txn: &RoTxn<'_>, key: &[u8]) -> (r: Result<Option<()>, HeedError>)
         ensures
             r is Ok ==> (r->Ok_0 is Some <==> db_tab(txn.cur@, self.table@).contains_key(key@)),
+    { unimplemented!() }
+}
+
+// std::ops::Bound as used by heed's range()
+// (vstd already carries the type specification of core::ops::Bound)
+use std::ops::Bound;
+pub open spec fn bound_key(b: Bound<&[u8]>) -> Seq<u8> { match b { Bound::Included(k) => k@, Bound::Excluded(k) => k@, Bound::Unbounded => Seq::<u8>::empty() } }
+impl Database<Bytes, U64<NativeEndian>> {
+    // entries with start <= key < end (Included start, Excluded end), ascending, as of the transaction's view
+    #[verifier::external_body]
+    pub fn range<'a>(&self, txn: &'a RoTxn<'_>, range: &(Bound<&[u8]>, Bound<&[u8]>)) -> (r: Result<RoRange<'a, Bytes, U64<NativeEndian>>, HeedError>)
+        requires range.0 is Included, range.1 is Excluded,
+        ensures r is Ok ==> r->Ok_0.pos@ == 0
+            && range_items_ok(r->Ok_0.items@, db_tab(txn.cur@, self.table@), bound_key(range.0), bound_key(range.1), false),
+    { unimplemented!() }
+    #[verifier::external_body]
+    pub fn iter<'a>(&self, txn: &'a RoTxn<'_>) -> (r: Result<RoIter<'a, Bytes, U64<NativeEndian>>, HeedError>)
+        ensures r is Ok ==> r->Ok_0.pos@ == 0
+            && (forall|i: int| 0 <= i < r->Ok_0.items@.len() ==> #[trigger] db_tab(txn.cur@, self.table@).contains_key(r->Ok_0.items@[i].0)
+                    && db_tab(txn.cur@, self.table@)[r->Ok_0.items@[i].0] == r->Ok_0.items@[i].1)
+            && (forall|k: Seq<u8>| #[trigger] db_tab(txn.cur@, self.table@).contains_key(k) ==> exists|i: int| 0 <= i < r->Ok_0.items@.len() && #[trigger] r->Ok_0.items@[i].0 == k)
+            && (forall|i: int, j: int| 0 <= i < j < r->Ok_0.items@.len() ==> bytes_lt(#[trigger] r->Ok_0.items@[i].0, #[trigger] r->Ok_0.items@[j].0)),
     { unimplemented!() }
 }
